@@ -20,7 +20,35 @@ VIEW_DEPS = {
 }
 
 
+def _normaliser_rules(ctx: Ctx) -> None:
+    """The loader normalises every track, every merged group and the meta merge: the fusion / keep-skip table (STACK) and
+    the signature filter (SIG) of normalise_relative decide what the loaded sequences sound like."""
+    from .c07 import stack_rules, sig_rules, FN as NFN
+    from .c05 import message_loop, output_list_name
+    nfi = ctx.p.func(NFN)
+    ctx.analysed(nfi)
+    lp = message_loop(nfi.node)
+    stack_rules(ctx, nfi, lp, output_list_name(nfi.node))
+    sig_rules(ctx, nfi, lp, lp.target.id)
+
+
+def _insertion_rules(ctx: Ctx) -> None:
+    """The loader builds each sequence with add_absolute_message in file order and normalises it in the stored order: the
+    position binary_insort chooses among equal ticks decides whether a note-off precedes the re-strike of its pitch."""
+    from ..engines.structure import bisect_rule
+    ctx.floor("pieces of the sorted insertion decided", bisect_rule(ctx), 1)
+
+
+# further rule groups a property rests on although they live in another property's module
+RULE_DEPS = {
+    "C12": [_normaliser_rules, _insertion_rules],
+    "C13": [_normaliser_rules, _insertion_rules],
+}
+
+
 def view_deps(ctx: Ctx) -> None:
+    for f in RULE_DEPS.get(ctx.prop, []):
+        f(ctx)
     from ..engines.typestate import TypestateEngine, check_wrappers
     names = VIEW_DEPS.get(ctx.prop)
     if not names:
